@@ -3,6 +3,7 @@ import Asn1Proofs.Lemmas.PyStrLemmas
   BRIDGE, part 2c: the translated `per.Decoder` (the bit string held as a Python `str` of '0' / '1' characters and a
   count of unread bits) refines the `Per.St` readers of `Asn1Model/Per.lean`.
 -/
+set_option linter.unusedSimpArgs false
 namespace Asn1.Bridge
 open Asn1 Asn1.Translated
 open Asn1.Uper (Err)
@@ -321,10 +322,11 @@ theorem per_readNat_lt {n : Nat} {s : Per.St} {v : Nat} {t : Per.St} (h : Per.re
 
 /-- `read_non_negative_binary_integer` in the form used for composition -/
 theorem per_rnnbi_cases (d : per_DecoderS) (h : PDecInv d) (n : Nat) :
-    (∃ d' v, per_Decoder_read_non_negative_binary_integer d (n : Int) = .ok (d', (v : Int)) ∧
-      Per.readNat n (pAbs d) = .ok (v, pAbs d') ∧ PDecInv d' ∧ v < 2 ^ n) ∨
+    (∃ (d' : per_DecoderS) (v : Nat), per_Decoder_read_non_negative_binary_integer d (n : Int) = .ok (d', (v : Int)) ∧
+      Per.readNat n (pAbs d) = .ok (v, pAbs d') ∧ PDecInv d' ∧ v < 2 ^ n ∧
+      ∃ bits, Per.readBits n (pAbs d) = .ok (bits, pAbs d') ∧ bitsToNat bits = v) ∨
     (per_Decoder_read_non_negative_binary_integer d (n : Int) = .error "OutOfDataError" ∧
-      Per.readNat n (pAbs d) = .error .decodeError) := by
+      Per.readNat n (pAbs d) = .error .decodeError ∧ Per.readBits n (pAbs d) = .error .decodeError) := by
   obtain ⟨N, T, val, rfl, hNT, hlen, hbin, hal⟩ := h.view
   rw [per_rnnbi_mk N T n val hNT hlen hbin]
   by_cases hn : n ≤ N
@@ -333,15 +335,34 @@ theorem per_rnnbi_cases (d : per_DecoderS) (h : PDecInv d) (n : Nat) :
       rw [per_readNat_eq, pAbs_mk N T val hNT, pAbs_advance N T n val hn hNT]
       simp only [pAbs_bs_length N T val hNT hlen]
       rw [if_pos hn]
+    have e' : Per.readBits n (pAbs ⟨(N : Int), (T : Int), val⟩)
+        = .ok (((val.drop (T - N)).map (· == '1')).take n, pAbs ⟨((N - n : Nat) : Int), (T : Int), val⟩) := by
+      rw [per_readBits_eq, pAbs_mk N T val hNT, pAbs_advance N T n val hn hNT]
+      simp only [pAbs_bs_length N T val hNT hlen]
+      rw [if_pos hn]
     rw [if_pos hn]
-    exact .inl ⟨_, _, rfl, e, pdec_inv_mk _ _ _ (by omega) hlen hbin hal, per_readNat_lt e⟩
+    exact .inl ⟨_, _, rfl, e, pdec_inv_mk _ _ _ (by omega) hlen hbin hal, per_readNat_lt e, _, e', rfl⟩
   · rw [if_neg hn]
-    refine .inr ⟨rfl, ?_⟩
-    rw [per_readNat_eq, pAbs_mk N T val hNT]
-    simp only [pAbs_bs_length N T val hNT hlen]
-    rw [if_neg hn]
+    refine .inr ⟨rfl, ?_, ?_⟩
+    · rw [per_readNat_eq, pAbs_mk N T val hNT]
+      simp only [pAbs_bs_length N T val hNT hlen]
+      rw [if_neg hn]
+    · rw [per_readBits_eq, pAbs_mk N T val hNT]
+      simp only [pAbs_bs_length N T val hNT hlen]
+      rw [if_neg hn]
 
-theorem and192 : ∀ v, v < 256 → v &&& 192 = v / 64 * 64 := by decide
+theorem and192 (v : Nat) (h : v < 256) : v &&& 192 = v / 64 * 64 := by
+  have h1 : (v &&& 192) % 2 ^ 6 = 0 := by
+    rw [Nat.and_mod_two_pow]
+    show v % 2 ^ 6 &&& 0 = 0
+    exact Nat.and_zero _
+  have h2 : (v &&& 192) >>> 6 = v / 64 := by
+    rw [Nat.shiftRight_and_distrib]
+    show (v >>> 6) &&& (2 ^ 2 - 1) = _
+    rw [Nat.and_two_pow_sub_one_eq_mod, Nat.shiftRight_eq_div_pow]
+    omega
+  rw [Nat.shiftRight_eq_div_pow] at h2
+  omega
 
 theorem band192 (v : Nat) (h : v < 256) : Py.band (v : Int) 192 = ((v / 64 * 64 : Nat) : Int) := by
   rw [show (192 : Int) = ((192 : Nat) : Int) from rfl, Py.band_natCast, and192 v h]
@@ -356,7 +377,7 @@ theorem per_read_length_determinant_refines (d : per_DecoderS) (h : PDecInv d) :
   unfold per_Decoder_read_length_determinant Per.readLenDet
   have r8 := per_rnnbi_cases d h 8
   rw [show ((8 : Nat) : Int) = (8 : Int) from rfl] at r8
-  rcases r8 with ⟨d1, v, e1, e2, hi, hv⟩ | ⟨e1, e2⟩
+  rcases r8 with ⟨d1, v, e1, e2, hi, hv, _⟩ | ⟨e1, e2, _⟩
   · rw [e1, e2]
     simp only [bind, Except.bind]
     by_cases c1 : v < 128
@@ -369,13 +390,13 @@ theorem per_read_length_determinant_refines (d : per_DecoderS) (h : PDecInv d) :
         simp only [if_true]
         have r8' := per_rnnbi_cases d1 hi 8
         rw [show ((8 : Nat) : Int) = (8 : Int) from rfl] at r8'
-        rcases r8' with ⟨d2, w, f1, f2, hi2, hw⟩ | ⟨f1, f2⟩
+        rcases r8' with ⟨d2, w, f1, f2, hi2, hw, _⟩ | ⟨f1, f2, _⟩
         · rw [f1, f2]
           simp only [pure, Except.pure]
           rw [lendet_two v w (by omega)]
           refine Refines.ok hi2 rfl ?_
           show ((v % 128 * 256 + w : Nat) : Int) = (((v - 128) * 256 + w : Nat) : Int)
-          congr 2; omega
+          rw [show v % 128 = v - 128 by omega]
         · rw [f1, f2]
           exact Refines.err (.inl rfl)
       · rw [decide_eq_false (by omega : ¬ ((v / 64 * 64 : Nat) : Int) = 128), if_neg c2]
@@ -399,5 +420,192 @@ theorem per_read_length_determinant_refines (d : per_DecoderS) (h : PDecInv d) :
         exact Refines.err (.inr rfl)
   · rw [e1, e2]
     exact Refines.err (.inl rfl)
+
+/-! #### compositions -/
+
+theorem per_read_bit_cases (d : per_DecoderS) (h : PDecInv d) :
+    (∃ (d' : per_DecoderS) (b : Bool), per_Decoder_read_bit d = .ok (d', if b then 1 else 0) ∧
+      Per.readBit (pAbs d) = .ok (b, pAbs d') ∧ PDecInv d') ∨
+    (∃ e, per_Decoder_read_bit d = .error e ∧ Per.readBit (pAbs d) = .error .decodeError ∧ errOk .decodeError e) := by
+  rcases (per_read_bit_refines d h).cases with ⟨d1, a, b, e1, e2, hi, hv⟩ | ⟨e, m, e1, e2, hm⟩
+  · unfold bitVal at hv
+    subst hv
+    exact .inl ⟨d1, b, e1, e2, hi⟩
+  · refine .inr ⟨e, e1, ?_⟩
+    have : m = .decodeError := by
+      unfold Per.readBit at e2
+      split at e2
+      · cases e2; rfl
+      · cases e2
+    subst this
+    exact ⟨e2, hm⟩
+
+theorem per_read_length_determinant_cases (d : per_DecoderS) (h : PDecInv d) :
+    (∃ (d' : per_DecoderS) (n : Nat), per_Decoder_read_length_determinant d = .ok (d', (n : Int)) ∧
+      Per.readLenDet (pAbs d) = .ok (n, pAbs d') ∧ PDecInv d') ∨
+    (∃ e m, per_Decoder_read_length_determinant d = .error e ∧ Per.readLenDet (pAbs d) = .error m ∧ errOk m e) := by
+  rcases (per_read_length_determinant_refines d h).cases with ⟨d1, a, b, e1, e2, hi, hv⟩ | ⟨e, m, e1, e2, hm⟩
+  · unfold natVal at hv
+    subst hv
+    exact .inl ⟨d1, b, e1, e2, hi⟩
+  · exact .inr ⟨e, m, e1, e2, hm⟩
+
+theorem truthy_bit (b : Bool) : (!Py.truthyInt (if b = true then (1 : Int) else 0)) = !b := by
+  cases b <;> rfl
+
+theorem per_read_normally_small_non_negative_whole_number_refines (d : per_DecoderS) (h : PDecInv d) :
+    Refines PDecInv pAbs natVal (per_Decoder_read_normally_small_non_negative_whole_number d) (Per.decNsnnwn (pAbs d)) := by
+  unfold per_Decoder_read_normally_small_non_negative_whole_number Per.decNsnnwn
+  rcases per_read_bit_cases d h with ⟨d1, b, e1, e2, hi⟩ | ⟨e, e1, e2, hm⟩
+  · rw [e1, e2]
+    simp only [bind, Except.bind, truthy_bit]
+    cases b
+    · simp only [Bool.not_false, if_true]
+      have r6 := per_rnnbi_cases d1 hi 6
+      rw [show ((6 : Nat) : Int) = (6 : Int) from rfl] at r6
+      rcases r6 with ⟨d2, v, f1, f2, hi2, _⟩ | ⟨f1, f2, _⟩
+      · rw [f1, f2]; exact Refines.ok hi2 rfl rfl
+      · rw [f1, f2]; exact Refines.err (.inl rfl)
+    · simp only [Bool.not_true, Bool.false_eq_true, if_false]
+      rcases per_read_length_determinant_cases d1 hi with ⟨d2, n, f1, f2, hi2⟩ | ⟨e, m, f1, f2, hm⟩
+      · rw [f1, f2]
+        simp only [show (8 : Int) * (n : Int) = ((8 * n : Nat) : Int) by omega]
+        rcases per_rnnbi_cases d2 hi2 (8 * n) with ⟨d3, v, g1, g2, hi3, _⟩ | ⟨g1, g2, _⟩
+        · rw [g1, g2]; exact Refines.ok hi3 rfl rfl
+        · rw [g1, g2]; exact Refines.err (.inl rfl)
+      · rw [f1, f2]; exact Refines.err hm
+  · rw [e1, e2]; exact Refines.err hm
+
+theorem per_read_normally_small_length_refines (d : per_DecoderS) (h : PDecInv d) :
+    Refines PDecInv pAbs natVal (per_Decoder_read_normally_small_length d) (Per.decNsLength (pAbs d)) := by
+  unfold per_Decoder_read_normally_small_length Per.decNsLength
+  rcases per_read_bit_cases d h with ⟨d1, b, e1, e2, hi⟩ | ⟨e, e1, e2, hm⟩
+  · rw [e1, e2]
+    simp only [bind, Except.bind, truthy_bit]
+    cases b
+    · simp only [Bool.not_false, if_true]
+      have r6 := per_rnnbi_cases d1 hi 6
+      rw [show ((6 : Nat) : Int) = (6 : Int) from rfl] at r6
+      rcases r6 with ⟨d2, v, f1, f2, hi2, _⟩ | ⟨f1, f2, _⟩
+      · rw [f1, f2]
+        refine Refines.ok hi2 rfl ?_
+        show (v : Int) + 1 = ((v + 1 : Nat) : Int)
+        omega
+      · rw [f1, f2]; exact Refines.err (.inl rfl)
+    · simp only [Bool.not_true, Bool.false_eq_true, if_false]
+      rcases per_read_bit_cases d1 hi with ⟨d2, b2, f1, f2, hi2⟩ | ⟨e, f1, f2, hm⟩
+      · rw [f1, f2]
+        simp only [truthy_bit]
+        cases b2
+        · simp only [Bool.not_false, if_true]
+          have r7 := per_rnnbi_cases d2 hi2 7
+          rw [show ((7 : Nat) : Int) = (7 : Int) from rfl] at r7
+          rcases r7 with ⟨d3, v, g1, g2, hi3, _⟩ | ⟨g1, g2, _⟩
+          · rw [g1, g2]; exact Refines.ok hi3 rfl rfl
+          · rw [g1, g2]; exact Refines.err (.inl rfl)
+        · simp only [Bool.not_true, Bool.false_eq_true, if_false]
+          exact Refines.err rfl
+      · rw [f1, f2]; exact Refines.err hm
+  · rw [e1, e2]; exact Refines.err hm
+
+theorem per_read_constrained_whole_number_refines (d : per_DecoderS) (h : PDecInv d) (lo hi : Int) (nbits : Nat) (hr : lo ≤ hi) :
+    Refines PDecInv pAbs (fun a (v : Nat) => a = lo + v)
+      (per_Decoder_read_constrained_whole_number d lo hi nbits) (Per.decCwn (hi - lo + 1).toNat nbits (pAbs d)) := by
+  unfold per_Decoder_read_constrained_whole_number Per.decCwn
+  obtain ⟨R, hR⟩ := Int.eq_ofNat_of_zero_le (show 0 ≤ hi - lo + 1 by omega)
+  simp only [hR, Int.toNat_natCast]
+  obtain ⟨ai, aa⟩ := per_align_always_refines d h
+  have fin : ∀ (x : per_DecoderS) (n : Nat), PDecInv x →
+      Refines PDecInv pAbs (fun a (v : Nat) => a = lo + v)
+        (do
+          let (value, self) ← (do
+            let (self, value) ← per_Decoder_read_non_negative_binary_integer x (n : Int)
+            pure (value, self))
+          pure (self, value + lo))
+        (Per.readNat n (pAbs x)) := by
+    intro x n hx
+    rcases per_rnnbi_cases x hx n with ⟨d2, v, f1, f2, hi2, _⟩ | ⟨f1, f2, _⟩
+    · rw [f1, f2]
+      exact Refines.ok hi2 rfl (Int.add_comm _ _)
+    · rw [f1, f2]; exact Refines.err (.inl rfl)
+  have fin2 : ∀ (n : Nat) (ni : Int), (n : Int) = ni →
+      (∃ (d2 : per_DecoderS) (v : Nat),
+        per_Decoder_read_non_negative_binary_integer (per_Decoder_align_always d) ni = .ok (d2, (v : Int)) ∧
+        Per.readNat n (Per.align (pAbs d)) = .ok (v, pAbs d2) ∧ PDecInv d2) ∨
+      (per_Decoder_read_non_negative_binary_integer (per_Decoder_align_always d) ni = .error "OutOfDataError" ∧
+        Per.readNat n (Per.align (pAbs d)) = .error .decodeError) := by
+    intro n ni hni
+    subst hni
+    rw [← aa]
+    rcases per_rnnbi_cases _ ai n with ⟨d2, v, f1, f2, hi2, _⟩ | ⟨f1, f2, _⟩
+    · exact .inl ⟨d2, v, f1, f2, hi2⟩
+    · exact .inr ⟨f1, f2⟩
+  by_cases c1 : R ≤ 255
+  · rw [decide_eq_true (by omega : (R : Int) ≤ 255), if_pos c1]
+    simp only [if_true]
+    exact fin d nbits h
+  rw [decide_eq_false (by omega : ¬ (R : Int) ≤ 255), if_neg c1]
+  simp only [Bool.false_eq_true, if_false]
+  by_cases c2 : R = 256
+  · rw [decide_eq_true (by omega : (R : Int) = 256), if_pos c2]
+    simp only [if_true]
+    rcases fin2 8 8 rfl with ⟨d2, v, f1, f2, hi2⟩ | ⟨f1, f2⟩
+    · simp only [f1, f2, bind, Except.bind, pure, Except.pure]
+      exact Refines.ok hi2 rfl (Int.add_comm _ _)
+    · simp only [f1, f2, bind, Except.bind, pure, Except.pure]
+      exact Refines.err (.inl rfl)
+  rw [decide_eq_false (by omega : ¬ (R : Int) = 256), if_neg c2]
+  simp only [Bool.false_eq_true, if_false]
+  by_cases c3 : R ≤ 65536
+  · rw [decide_eq_true (by omega : (R : Int) ≤ 65536), if_pos c3]
+    simp only [if_true]
+    rcases fin2 16 16 rfl with ⟨d2, v, f1, f2, hi2⟩ | ⟨f1, f2⟩
+    · simp only [f1, f2, bind, Except.bind, pure, Except.pure]
+      exact Refines.ok hi2 rfl (Int.add_comm _ _)
+    · simp only [f1, f2, bind, Except.bind, pure, Except.pure]
+      exact Refines.err (.inl rfl)
+  rw [decide_eq_false (by omega : ¬ (R : Int) ≤ 65536), if_neg c3]
+  simp only [Bool.false_eq_true, if_false]
+  rcases fin2 nbits nbits rfl with ⟨d2, v, f1, f2, hi2⟩ | ⟨f1, f2⟩
+  · simp only [f1, f2, bind, Except.bind, pure, Except.pure]
+    exact Refines.ok hi2 rfl (Int.add_comm _ _)
+  · simp only [f1, f2, bind, Except.bind, pure, Except.pure]
+    exact Refines.err (.inl rfl)
+
+theorem per_read_unconstrained_whole_number_refines (d : per_DecoderS) (h : PDecInv d) :
+    Refines PDecInv pAbs (fun a (i : Int) => a = i)
+      (per_Decoder_read_unconstrained_whole_number d) (Per.decUnconstrained (pAbs d)) := by
+  unfold per_Decoder_read_unconstrained_whole_number Per.decUnconstrained
+  rcases per_read_length_determinant_cases d h with ⟨d1, k, e1, e2, hi⟩ | ⟨e, m, e1, e2, hm⟩
+  · rw [e1, e2]
+    simp only [bind, Except.bind, show (8 : Int) * (k : Int) = ((8 * k : Nat) : Int) by omega]
+    rcases per_rnnbi_cases d1 hi (8 * k) with ⟨d2, n, f1, _, hi2, hlt, bits, f2, hbits⟩ | ⟨f1, _, f2⟩
+    · rw [f1, f2]
+      simp only [hbits]
+      by_cases k0 : k = 0
+      · subst k0
+        rw [shlE_neg _ _ (by decide)]
+        exact Refines.err rfl
+      · rw [if_neg k0, show ((8 * k : Nat) : Int) - 1 = ((8 * k - 1 : Nat) : Int) by omega, shlE_natCast, shlE_natCast]
+        simp only [pure, Except.pure]
+        have hP := two_pow_pred (show 1 ≤ 8 * k by omega)
+        have hz : Py.band (n : Int) ((1 : Int) * 2 ^ (8 * k - 1)) = 0 ↔ n < 2 ^ (8 * k - 1) := by
+          rw [Int.one_mul, ← cast_two_pow, Py.band_natCast,
+            ← Py.and_two_pow_eq_zero_of_lt (show n < 2 ^ (8 * k - 1 + 1) by
+              rw [show 8 * k - 1 + 1 = 8 * k by omega]; exact hlt)]
+          omega
+        by_cases cA : n < 2 ^ (8 * k - 1)
+        · rw [if_neg (by omega : ¬ (n ≥ 2 ^ (8 * k - 1))), hz.2 cA, show Py.truthyInt 0 = false from rfl]
+          exact Refines.ok hi2 rfl rfl
+        · have hne : Py.band (n : Int) ((1 : Int) * 2 ^ (8 * k - 1)) ≠ 0 := fun hh => cA (hz.1 hh)
+          have t1 : Py.truthyInt (Py.band (n : Int) ((1 : Int) * 2 ^ (8 * k - 1))) = true := by
+            simp only [Py.truthyInt, bne_iff_ne]; exact hne
+          rw [if_pos (by omega : (n ≥ 2 ^ (8 * k - 1))), t1]
+          refine Refines.ok hi2 rfl ?_
+          show (n : Int) - ((1 : Int) * 2 ^ (8 * k) - 1) - 1 = (n : Int) - ((2 ^ (8 * k) : Nat) : Int)
+          rw [Int.one_mul, ← cast_two_pow]; omega
+    · rw [f1, f2]
+      exact Refines.err (.inl rfl)
+  · rw [e1, e2]; exact Refines.err hm
 
 end Asn1.Bridge
